@@ -135,7 +135,7 @@ impl JobCheck {
             let configs: Vec<ConfigSpec> = (0..k)
                 .map(|_| {
                     let mut c = g.config(ctx.tier == Tier::Thorough, feats.has_iterate);
-                    if feats.has_iterate && min_explicit_batch(&job.pipe.stages).map_or(false, |b| b < 256) {
+                    if feats.has_iterate && std::env::var("VERIF_NO_F7_EXCLUSION").is_err() && min_explicit_batch(&job.pipe.stages).map_or(false, |b| b < 256) {
                         // known finding F7: small batches around `iterate`; excluded by construction
                         c.batch = c.batch.or(Some(BatchSpec::Fixed(1024)));
                     }
@@ -218,6 +218,8 @@ pub fn common_classes(feats: &Features, rep: &mut Report) {
     rep.class_if(feats.has_zip, "job:zip");
     rep.class_if(feats.side_input, "job:side_input");
     rep.class_if(feats.empty_source, "job:empty_source");
+    rep.class_if(feats.window_in_loop, "job:count_window_inside_loop");
+    rep.class_if(feats.agg_in_loop, "job:aggregation_inside_loop");
 }
 
 fn no_classes(_: &Features, _: &JobSpec, _: &ConfigSpec, _: &JobRun, _: &mut Report) {}
@@ -341,7 +343,7 @@ pub fn c04() -> JobCheck {
 pub fn c05() -> JobCheck {
     JobCheck {
         id: "C05",
-        profile: || Profile { name: "c05", w_replay: 9, w_iterate: 5, ..Profile::base() },
+        profile: || Profile { name: "c05", w_replay: 12, w_iterate: 5, w_window: 12, w_keyed_agg: 12, ..Profile::base() },
         monitors: Monitors { grammar: true, per_iteration: true, alignment: true, ..Monitors::default() },
         k: (2, 3),
         cases: (300, 7000),
@@ -534,12 +536,65 @@ pub fn defs() -> Vec<CheckDef> {
     let mut v = defs0();
     for d in v.iter_mut() {
         match d.id {
+            "C04" => {
+                d.modes = |t| vec![("main", t.pick(8, 14)), ("kf", 1)];
+                d.run = |ctx, mode| {
+                    if mode == "kf" {
+                        c04_known(ctx)
+                    } else {
+                        by_id(&ctx.id).run(ctx, mode)
+                    }
+                };
+            }
             "C07" => d.modes = |t| vec![("main", t.pick(8, 12)), ("fold_ts", t.pick(2, 4))],
             "C08" => d.modes = |t| vec![("main", t.pick(8, 12)), ("interval", t.pick(3, 4))],
             _ => {}
         }
     }
     v
+}
+
+/// Sub-run for the open known finding F7: the recorded job is run under the watchdog; a deadlock
+/// with an `Iterate` replica parked in a send reproduces the finding.
+fn c04_known(ctx: &Ctx) -> Report {
+    let mut report = Report::default();
+    let known = load_known(&ctx.verif_dir);
+    if !is_open(&known, "C04", "iterate-cyclic-backpressure-deadlock") {
+        return report;
+    }
+    let path = ctx.verif_dir.join("known").join("C04-iterate-backpressure.json");
+    let Ok(txt) = std::fs::read_to_string(&path) else { return report };
+    let Ok(v) = serde_json::from_str::<Value>(&txt) else { return report };
+    let (Ok(job), Ok(cfgs)) = (
+        serde_json::from_value::<JobSpec>(v["job"].clone()),
+        serde_json::from_value::<Vec<ConfigSpec>>(v["configs"].clone()),
+    ) else {
+        return report;
+    };
+    let opts = RunOpts {
+        watchdog: Some(crate::run::Watchdog {
+            quiescence: std::time::Duration::from_secs(4),
+            budget: std::time::Duration::from_secs(60),
+        }),
+        ..RunOpts::default()
+    };
+    for i in 0..3 {
+        if let RunResult::Deadlock(d, _) = run_spec(&job, &cfgs[0], &opts, AddrSeed { shard: 219, job: i }) {
+            if d.parked.iter().any(|p| p.1 == crate::obs::ParkOp::Send) {
+                report.known.insert(
+                    "iterate-cyclic-backpressure-deadlock".into(),
+                    format!(
+                        "still reproduces on known/C04-iterate-backpressure.json: {} workers parked, e.g. {}",
+                        d.parked.len(),
+                        d.diagnosis.lines().nth(1).unwrap_or("").trim()
+                    ),
+                );
+                *report.known_hits.entry("iterate-cyclic-backpressure-deadlock".into()).or_default() += 1;
+                break;
+            }
+        }
+    }
+    report
 }
 
 fn defs0() -> Vec<CheckDef> {
